@@ -10,7 +10,7 @@ git -C /repo worktree add -q --detach $wt HEAD || exit 2
 cp /repo/Cargo.lock $wt/
 res=$out/confirm.txt; : > $res
 demos=$(ls $out/demo/*.rs)
-for d in $demos; do cp $d $wt/crates/anemo/tests/; done
+mkdir -p $wt/crates/anemo/tests; for d in $demos; do cp $d $wt/crates/anemo/tests/; done
 names=$(for d in $demos; do basename $d .rs; done)
 run_demo() { rc=0; for n in $names; do (cd $wt && timeout 900 cargo test --offline -p anemo --test $n > /tmp/confirm/$id-demo-$1-$n.log 2>&1) || rc=1; done; return $rc; }
 run_demo without; a=$?
